@@ -16,6 +16,7 @@ from pjrpc.server.validators import jsonschema as _vjs, pydantic as _vpd  # noqa
 from .. import serverside, strictjson, world
 from ..gen import docs
 from ..models import server as model
+from pjrpc.common import UNSET
 
 PID = 'C13'
 LEVEL = 'exploration'
@@ -42,7 +43,7 @@ ANCHORS = [
     ('pjrpc/server/validators/jsonschema.py', 'JsonSchemaValidator.validate_method'),
     ('pjrpc/server/validators/pydantic.py', 'PydanticValidator.validate_method'),
 ]
-FLOORS = {'*': {'history:cases': 300, 'history:application-codec-classes-with-per-document-state': 100, 'history:probes-after-failure': 50, 'history:probes-after-context-request': 50, 'history:step-that-raised-out-of-dispatch': 50,
+FLOORS = {'*': {'history:cases': 300, 'history:per-code-error-handlers-that-sign': 100, 'history:application-codec-classes-with-per-document-state': 100, 'history:probes-after-failure': 50, 'history:probes-after-context-request': 50, 'history:step-that-raised-out-of-dispatch': 50,
                 'leak:function': 6, 'leak:positional-context': 6, 'leak:view': 6, 'leak:base': 6, 'leak:jsonschema': 6,
                 'leak:pydantic': 6, 'leak:N=1000': 3, 'leak:hooks-that-raise': 6, 'leak:dispatch-raised-from-a-hook': 30, 'threads:runs': 4, 'threads:injected-yields': 1000,
                 'threads:distinct-lines': 20, 'threads:overlapping-dispatches': 100, 'threads:responses': 2000, 'threads:interpreter-state-samples': 2000, 'threads:cold-dispatcher-with-middlewares': 40, 'growth:runs': 8, 'cancel:runs': 12, 'two-loops:runs': 8, 'cancel:dispatch-cancelled': 100}}
@@ -70,6 +71,11 @@ PROBES = [
     # variadic keywords under the pydantic validator: whatever the answer is, it is the same as on a fresh dispatcher
     docs.obj(id='p', method='pd_kw', params={'a': 1, 'x': 2, 'y': 3}), docs.obj(id='p', method='pd_kw', params={'a': 1}),
     [docs.obj(id='p', method='mutate', params={'lst': [1]}), docs.obj(id='q', method='mutate', params={'lst': [1]})],
+    # one validator object shared by two modules whose functions have the same signature text
+    docs.obj(id='p', method='users.create', params=[{'name': 'ann'}]), docs.obj(id='p', method='orders.create', params=[{'sku': 5}]),
+    docs.obj(id='p', method='orders.create', params=[{'name': 'ann'}]),
+    # a long-lived error object raised again, mappings with non-string keys
+    docs.obj(id='p', method='stale', params=[{'n': 9}]), docs.obj(id='p', method='keyed', params=['mixed']),
 ]
 UNENCODABLE = [docs.obj(id=1, method='unenc', params=[w]) for w in ('set', 'object', 'bytes', 'nested')] + \
     [[docs.obj(id=1, method='ok', params=[1]), docs.obj(id=2, method='unenc')]]
@@ -116,11 +122,35 @@ class PerDocumentEncoder(pjrpc.server.JSONEncoder):
         return super().encode(o)
 
 
+def signing_hooks(is_async):
+    """pure hooks that leave a mark on what passes through them: error handlers for every failure, for several specific codes
+    (each marks the error's data) and a middleware that marks error responses - a handler that was not applied shows"""
+    ex = pjrpc.exceptions
+
+    def mark(tag):
+        def sign(request, context, error):
+            data = error.data if error.data is not UNSET else None
+            return ex.JsonRpcError(code=error.code, message=error.message, data={'signed': tag, 'was': data})
+        if not is_async:
+            return sign
+
+        async def a_sign(request, context, error):
+            return sign(request, context, error)
+        return a_sign
+
+    table = {None: [mark('any')], -32601: [mark('nf')], -32602: [mark('ip'), mark('ip2')], -32000: [mark('se')],
+             1234: [mark('app')], 70001: [mark('typed')]}
+    return {'error_handlers': table}
+
+
 def run_history(ctx, history, probe, is_async, codec=None):
     kind = 'async' if is_async else 'sync'
-    dkw = {'json_decoder': PerDocumentDecoder, 'json_encoder': PerDocumentEncoder} if codec else {}
-    if codec:
+    dkw = {'json_decoder': PerDocumentDecoder, 'json_encoder': PerDocumentEncoder} if codec == 'per-document' else {}
+    if codec == 'per-document':
         ctx.hit('history:application-codec-classes-with-per-document-state')
+    if codec == 'signing-hooks':
+        dkw = signing_hooks(is_async)
+        ctx.hit('history:per-code-error-handlers-that-sign')
     used = world.World(is_async, 3, **dkw)
     state0 = interpreter_state()
     token = 0
@@ -751,14 +781,16 @@ def gen(ctx):
     for h in crafted:
         for p in range(len(PROBES)):
             k += 1
-            yield 'history', dict(history=h, probe=p, is_async=bool(k % 2), **({'codec': 'per-document'} if k % 7 == 0 else {}))
+            yield 'history', dict(history=h, probe=p, is_async=bool(k % 2),
+                                  **({'codec': 'per-document'} if k % 7 == 0 else ({'codec': 'signing-hooks'} if k % 7 == 3 else {})))
     for _ in range(60000 if deep else 5000):
         n = rng.randint(1, 12 if full else 6)
         h = [rng.choice(pool) for _ in range(n)]
         if k % 5 == 0:
             h.insert(rng.randrange(len(h) + 1), rng.choice(UNENCODABLE))
         k += 1
-        yield 'history', dict(history=h, probe=rng.randrange(len(PROBES)), is_async=bool(k % 2), **({'codec': 'per-document'} if k % 6 == 0 else {}))
+        yield 'history', dict(history=h, probe=rng.randrange(len(PROBES)), is_async=bool(k % 2),
+                              **({'codec': 'per-document'} if k % 6 == 0 else ({'codec': 'signing-hooks'} if k % 6 == 3 else {})))
     for style in ('function', 'positional-context', 'view'):
         for vname in ('base', 'jsonschema', 'pydantic'):
             for is_async in (False, True):
